@@ -4,6 +4,9 @@ package smtp
 
 import (
 	"net/textproto"
+	"strings"
+
+	"github.com/inbucket/inbucket/v3/pkg/extension"
 
 	"github.com/inbucket/inbucket/v3/pkg/extension/event"
 	"github.com/inbucket/inbucket/v3/pkg/message"
@@ -11,6 +14,8 @@ import (
 )
 
 var _ textproto.Conn
+var _ = strings.Trim
+var _ extension.Host
 var _ = event.ActionDefer
 var _ message.Manager
 var _ policy.Recipient
@@ -19,6 +24,11 @@ var _ policy.Recipient
 // (*textproto.Conn).PrintfLine): number of lines written and the last line.
 func ghost_nlines(w *textproto.Writer) int      { panic("ghost") }
 func ghost_lastline(w *textproto.Writer) string { panic("ghost") }
+
+// The most recent answer of a before-hook broker (ghost, recorded by the contract of Emit).
+func ghost_lastEmit(eb *extension.EventBroker[event.SMTPSession, event.SMTPResponse]) *event.SMTPResponse {
+	panic("ghost")
+}
 
 // ---------------------------------------------------------------------------------------------
 // Session invariant (C01, C03).
@@ -74,7 +84,7 @@ func ghost_lastline(w *textproto.Writer) string { panic("ghost") }
 // extSession builds a fresh description of the envelope; it changes nothing.
 //@ func (*Session).extSession
 //@   requires s.Server != nil && forall k int :: { s.recipients[k] } 0 <= k && k < len(s.recipients) ==> s.recipients[k] != nil
-//@   ensures ret != nil && vcFresh(ret)
+//@   ensures ret != nil && vcFresh(ret) && vcFresh(ret.To)
 //@   loop 1: invariant 0 <= ridx && ridx <= len(s.recipients) && vcFresh(to)
 //@   loop 1: decreases len(s.recipients) - ridx
 //@   serves C03
@@ -107,3 +117,64 @@ func ghost_lastline(w *textproto.Writer) string { panic("ghost") }
 //@   modifies s.state, s.sendError, ghost_nlines(&s.text.Writer), ghost_lastline(&s.text.Writer)
 //@   ensures I_smtp(s) && s.state == READY
 //@   serves C03
+
+// READY: MAIL may open a transaction; AUTH sub-dialogue; EHLO resets; STARTTLS returns to GREET.
+//@ func (*Session).readyHandler
+//@   requires I_smtp(s) && s.state == READY
+//@   modifies s.state, s.from, s.recipients, s.conn, s.text, s.tlsState, s.sendError, ghost_nlines(&s.text.Writer), ghost_lastline(&s.text.Writer), ghost_lastEmit(&s.extHost.Events.BeforeMailFromAccepted)
+//@   ensures s.state == QUIT || I_smtp(s)
+//@   ensures s.state == MAIL ==> cmd == "MAIL"
+//@   ensures len(s.recipients) == 0
+//@   serves C03
+
+// MAIL FROM: the transaction opens (state MAIL) only from READY, with an empty recipient list.
+//@ func (*Session).parseMailFromCmd
+//@   requires I_smtp(s) && s.state == READY
+//@   modifies s.state, s.from, s.sendError, ghost_nlines(&s.text.Writer), ghost_lastline(&s.text.Writer), ghost_lastEmit(&s.extHost.Events.BeforeMailFromAccepted)
+//@   ensures I_smtp(s) && (s.state == READY || s.state == MAIL)
+//@   ensures[allowOrPolicy C05 C17] s.state == MAIL ==>
+//@      (ghost_lastEmit(&s.extHost.Events.BeforeMailFromAccepted) != nil && ghost_lastEmit(&s.extHost.Events.BeforeMailFromAccepted).Action != event.ActionDeny &&
+//@         ghost_lastEmit(&s.extHost.Events.BeforeMailFromAccepted).Action != event.ActionDefer) ||
+//@      ((ghost_lastEmit(&s.extHost.Events.BeforeMailFromAccepted) == nil || ghost_lastEmit(&s.extHost.Events.BeforeMailFromAccepted).Action == event.ActionDefer) &&
+//@         !policy.Spec_originRejected(s.from))
+//@   serves C03 C05 C06 C17
+
+// MAIL state.  RCPT appends exactly the parsed recipient, and only when a hook allowed it or
+// (no hook answer / defer and) the domain policy accepts it, and the recipient limit is not reached;
+// every other outcome leaves the envelope as it was.  DATA is entered only with a recipient.
+//@ func (*Session).mailHandler
+//@   requires I_smtp(s) && s.state == MAIL
+//@   modifies s.state, s.from, s.recipients, elems(s.recipients), s.sendError, ghost_nlines(&s.text.Writer), ghost_lastline(&s.text.Writer), ghost_lastEmit(&s.extHost.Events.BeforeRcptToAccepted)
+//@   ensures I_smtp(s) && (s.state == MAIL || s.state == DATA || s.state == READY)
+//@   ensures[reset] s.state == READY ==> s.from == nil && len(s.recipients) == 0 && cmd == "EHLO"
+//@   ensures[sameTxn] s.state != READY ==> s.from == old(s.from) && len(s.recipients) >= old(len(s.recipients)) && len(s.recipients) <= old(len(s.recipients)) + 1
+//@   ensures[keeps] s.state != READY ==> forall k int :: { s.recipients[k] } 0 <= k && k < old(len(s.recipients)) ==> s.recipients[k] == old(s.recipients[k])
+//@   ensures[onlyRcpt] len(s.recipients) == old(len(s.recipients)) + 1 ==> cmd == "RCPT" && s.state == MAIL
+//@   ensures[limit C05] len(s.recipients) == old(len(s.recipients)) + 1 ==> old(len(s.recipients)) < s.config.MaxRecipients
+//@   ensures[identity C01] len(s.recipients) == old(len(s.recipients)) + 1 ==>
+//@      s.recipients[len(s.recipients)-1].Address.Address == strings.Trim(arg[3:], "<> ") && vcFresh(s.recipients[len(s.recipients)-1])
+//@   ensures[allowOrPolicy C05 C17] len(s.recipients) == old(len(s.recipients)) + 1 ==>
+//@      (ghost_lastEmit(&s.extHost.Events.BeforeRcptToAccepted) != nil && ghost_lastEmit(&s.extHost.Events.BeforeRcptToAccepted).Action != event.ActionDeny &&
+//@         ghost_lastEmit(&s.extHost.Events.BeforeRcptToAccepted).Action != event.ActionDefer) ||
+//@      ((ghost_lastEmit(&s.extHost.Events.BeforeRcptToAccepted) == nil || ghost_lastEmit(&s.extHost.Events.BeforeRcptToAccepted).Action == event.ActionDefer) &&
+//@         policy.Spec_shouldAccept(s.recipients[len(s.recipients)-1]))
+//@   ensures[ack C01] len(s.recipients) == old(len(s.recipients)) + 1 && s.sendError == nil ==>
+//@      len(ghost_lastline(&s.text.Writer)) >= 4 && ghost_lastline(&s.text.Writer)[:4] == "250 "
+//@   ensures[dataGate] s.state == DATA ==> cmd == "DATA" && len(s.recipients) == old(len(s.recipients)) && len(s.recipients) > 0
+//@   serves C01 C03 C05 C17
+
+// DATA.  At most one delivery, only of a completely received block, to exactly the envelope of
+// this transaction; afterwards the envelope is empty (or the session is over).  A block larger than
+// the configured maximum is never delivered (C06).
+//@ func (*Session).dataHandler
+//@   requires I_smtp(s) && s.state == DATA
+//@   modifies s.state, s.from, s.recipients, s.sendError, ghost_nlines(&s.text.Writer), ghost_lastline(&s.text.Writer),
+//@      ghost_ndeliver(s.manager), ghost_dlvFrom(s.manager), ghost_dlvRcpts(s.manager), ghost_dlvContent(s.manager)
+//@   ensures[state] s.state == QUIT || (I_smtp(s) && s.state == READY && s.from == nil && len(s.recipients) == 0)
+//@   ensures[once C01] message.Ghost_ndeliver(s.manager) == old(message.Ghost_ndeliver(s.manager)) || message.Ghost_ndeliver(s.manager) == old(message.Ghost_ndeliver(s.manager)) + 1
+//@   ensures[envelope C01] message.Ghost_ndeliver(s.manager) != old(message.Ghost_ndeliver(s.manager)) ==>
+//@      message.Ghost_dlvFrom(s.manager) == old(s.from) && vcSameSlice(message.Ghost_dlvRcpts(s.manager), old(s.recipients))
+//@   ensures[incomplete C03] s.state == QUIT ==> message.Ghost_ndeliver(s.manager) == old(message.Ghost_ndeliver(s.manager))
+//@   ensures[sizeLimit C06] message.Ghost_ndeliver(s.manager) != old(message.Ghost_ndeliver(s.manager)) ==>
+//@      len(message.Ghost_dlvContent(s.manager)) <= s.config.MaxMessageBytes
+//@   serves C01 C02 C03 C06
